@@ -16,6 +16,16 @@ CHECKS = {
          "combinations.",
          "Values are finite trees without getters/proxies or integer-like keys; projection/idempotence/key-order clauses are "
          "checked on generated inputs, not proved."),
+ "C06": ("Theorems (Coq, closed): for every truth assignment of the atoms — i.e. for every value, whatever lists and mappings denote — "
+         "and every diagram (no bound on atoms, size, shape or ordering), BddOps::union/intersect/diff/complement and Bdd::from_node "
+         "evaluate to the Boolean combination of their operands; bdd_to_dnf and dnf_to_bdd preserve evaluation; sub_vec_union/"
+         "intersect/diff compute set union/intersection/difference of literal sets wherever is_subtype is equality; tag codes "
+         "regenerated from subtype.rs are distinct bits. Models of BddOps, DNF, ProperSubtypeOps and SemTypeOps are tied to the Rust "
+         "engine by syntactic comparison of every result; each implementation result is additionally judged by complete truth "
+         "tables / membership tables computed with the Gallina eval / mem (search).",
+         "The operations take fuel in the model (they recurse on results); theorems are about terminating calls and fuel sufficiency "
+         "is observed, not proved. The SemType-level statement (merge by tag) is checked on generated operands; custom formats and "
+         "void/undefined are modelled but outside the proved fragment, as the property states."),
  "C11": ("Theorem C11_except_known (for every validator tree and named environment without an intersection of two or more "
          "run-time members, every value and fuel): validate{strict} = validate{default} && no_extra; C11_refuted exhibits the "
          "unchanged code's counterexample (A & B of named objects); C11_strict_implies_default holds for all trees. The model "
